@@ -73,6 +73,13 @@ def gen_table(rng):
         row["cells"] = [cell(i, j) for j in range(ncols)]
     if spec.pop("declared", None) is not None or (ncols >= 2 and nrows >= 1 and rng.random() < 0.1):
         SP.make_ragged(spec, rng, cell)
+    elif ncols >= 2 and nrows >= 1 and rng.random() < 0.08:
+        # construction order "a column is added when rows already exist": blank in those rows
+        k = rng.randint(1, nrows)
+        for i, row in enumerate(spec["rows"]):
+            if i < k:
+                del row["cells"][ncols - 1:]
+        spec["late_column"] = {"after_rows": k, "column": spec["columns"][-1]}
     if rng.random() < 0.2:
         spec["decor"] = SP._decor("table", rng)      # header / footer / border / title styles, title justification
     spec["title"] = rng.choice([None, None, "TTT", "TITLE TITLE TITLE"])
@@ -123,6 +130,8 @@ def table_features(spec, W, m):
         f.append("table_width")
     if spec.get("big"):
         f.append("widths_above_256")
+    if spec.get("late_column"):
+        f.append("column_added_after_rows")
     return "+".join(f) or "plain"
 
 
@@ -175,6 +184,17 @@ def wl_tables(ctx, rng, case_no):
             ctx.count("mon.expand_exact")
             if lw[0] != avail:
                 ctx.violation("expanding-table-not-exactly-available-width:" + feats, dict(wit, line_width=lw[0]))
+        # 2b. what the caller asked of the PRINT (print(table, no_wrap=True, overflow=..., justify=...)) is not the
+        # table's business: every column passes its own wrapping mode to its cells, so the body is the same
+        if rng.random() < 0.2:
+            ctx.count("mon.outer_options_metamorphic")
+            outer = {"no_wrap": rng.choice([True, True, False]), "overflow": rng.choice(["fold", "crop", "ellipsis"]),
+                     "justify": rng.choice(["left", "right", "center", "full"])}
+            lw3, lines3 = SP.render_lines_cells(console, SP.build(bare), console.options.update(**outer))
+            if lines3 != lines:
+                ctx.violation("table-body-depends-on-the-print's-own-wrapping-options:" + feats,
+                              dict(wit, outer_options=outer, with_outer_options=lines3[:60]))
+                continue
         # 3. title / caption do not change the body
         if spec["title"] or spec["caption"]:
             ctx.count("mon.title_metamorphic")
